@@ -175,7 +175,7 @@ def _kron_variants(ops, own, cplx, ci, thorough):
         mf = [("dense", "csr", "coo", "csc", "bsr")[(k + ci) % 5] for k in range(len(ops))]
         vm = [_cast(o, f, dt) for f, o in zip(mf, ops)]
         # (a dense right factor makes quimb choose bsr for the intermediate product)
-        out.append(("mixed/%s" % dt, dt, lambda vm=vm: qu.kron(*vm, **kw), own is not None and len(set(mf)) > 1))
+        out.append(("mixed/%s" % dt, dt, lambda vm=vm: qu.kron(*vm, **kw), own is not None and (len(set(mf)) > 1 or "bsr" in mf)))
     # option combinations, rotating with the case number
     dt = _dtypes(cplx)[0]
     fmt = SPARSE[ci % 4]
@@ -208,11 +208,11 @@ def replay_kron_cases(rng, cases, thorough, ikron_every=1):
         except Exception:  # noqa
             mreal = [[-1, -1]]
         for cplx in (True, False):
-            if not cplx and not thorough and ci % 4:
+            if not cplx and not thorough and ci % 6:
                 continue
             # factors: rows = the subsystem dimension, 1..2 columns (kets, bras when d = 1, operators)
             ops = [_imat(rng, d, 1 + (k + ci) % 2, cplx) for k, d in enumerate(dims)]
-            base = {"ev": "kron", "tid": 0, "ops": [_mat(o if cplx else o.real) for o in ops], "own": [ri, rf],
+            base = {"ev": "kron", "tid": ci, "ops": [_mat(o if cplx else o.real) for o in ops], "own": [ri, rf],
                     "mreal": mreal, "src": "tlc"}
             _emit(recs, base, _kron_variants(ops, (ri, rf), cplx, ci, thorough))
         if ci % ikron_every:
@@ -230,7 +230,7 @@ def replay_kron_cases(rng, cases, thorough, ikron_every=1):
         else:
             inds = [ci % n]
             ops = [_imat(rng, dims[inds[0]], dims[inds[0]], cplx)]
-        base = {"ev": "ikron", "tid": 0, "ops": [_mat(o if cplx else o.real) for o in ops], "dims": dims, "inds": inds,
+        base = {"ev": "ikron", "tid": ci, "ops": [_mat(o if cplx else o.real) for o in ops], "dims": dims, "inds": inds,
                 "own": [ri, rf], "src": "tlc"}
         var = []
         for fmt, dt in _plan(ci, cplx, thorough):
@@ -265,7 +265,7 @@ def replay_sel_case(rng, recs, dims, sel, ci, src, thorough):
     dsel = _prod(dims[s] for s in sel)
     cplx = (ci % 5) != 4  # mostly complex inputs, every fifth case real (real dtypes)
     dts = _dtypes(cplx)
-    tag = {"tid": 0, "src": src}
+    tag = {"tid": 100000 + ci, "src": src}
 
     def cases_of(x, formats):
         for fmt, dt in _plan(ci, cplx, thorough, formats):
@@ -279,6 +279,11 @@ def replay_sel_case(rng, recs, dims, sel, ci, src, thorough):
             plans.append(("cycle1", [_imat(rng, dims[sel[0]], dims[sel[0]], cplx)]))
         if _is_run(sel) and len(sel) >= 2 and dsel > 1:
             plans.append(("overlay", [_imat(rng, dsel, dsel, cplx)]))
+        if len(sel) == 2 and sel[1] == sel[0] + 2:
+            # one operator on the block sel[0]..sel[1], the untargeted site in between included (ham_j1j2 does this)
+            dblk = _prod(dims[sel[0]: sel[1] + 1])
+            if dims[sel[0]] > 1 and dims[sel[0]] * dims[sel[0] + 1] < dblk:
+                plans.append(("overlay-gap", [_imat(rng, dblk, dblk, cplx)]))
         for pname, ops in plans:
             base = dict(tag, ev="ikron", ops=[_mat(o if cplx else o.real) for o in ops], dims=dims, inds=sel, own=[], plan=pname)
             var = []
@@ -308,7 +313,7 @@ def replay_sel_case(rng, recs, dims, sel, ci, src, thorough):
     # ---- pkron: operator on dims[sel] in the given order
     if sel:
         op = _imat(rng, dsel, dsel, cplx)
-        base = dict(tag, ev="pkron", op=_mat(op if cplx else op.real), dims=dims, inds=sel)
+        base = dict(tag, ev="pkron", mat=_mat(op if cplx else op.real), dims=dims, inds=sel)
         var = []
         for fmt, dt, v in cases_of(op, FORMATS):
             var.append(("%s/%s" % (fmt, dt), dt, lambda v=v: qu.pkron(v, dims, sel)))
@@ -432,7 +437,7 @@ def observe_dim_map(rng, thorough):
         for coos in lists:
             for cyclic, trim in ((False, False), (True, False), (False, True), (True, True)):
                 for nested in ((False, True) if len(shp) == 1 else (True,)):
-                    r = {"ev": "dimmap", "tid": 0, "shape": list(shp), "dflat": dflat, "coos": [[int(x) for x in c] for c in coos],
+                    r = {"ev": "dimmap", "tid": 200000, "shape": list(shp), "dflat": dflat, "coos": [[int(x) for x in c] for c in coos],
                          "cyclic": cyclic, "trim": trim, "got": [], "gotdims": [], "exc": "", "nested": nested}
                     try:
                         arg = [tuple(c) for c in coos] if nested else [c[0] for c in coos]
@@ -460,7 +465,7 @@ def observe_lattice(rng, thorough):
         rho, psi = _irho(rng, D), _iket(rng, D)
         for pi, coos in enumerate(picks):
             ops = [_imat(rng, int(lat[c]), int(lat[c])) for c in coos]
-            base = {"ev": "ikron2d", "tid": 0, "ops": [_mat(o) for o in ops], "shape": list(shp), "dflat": dflat,
+            base = {"ev": "ikron2d", "tid": 200001 + ci, "ops": [_mat(o) for o in ops], "shape": list(shp), "dflat": dflat,
                     "coos": [[int(x) for x in c] for c in coos]}
             var = []
             for fmt, dt in (("dense", "complex128"), ("csr", "complex128"), ("coo", "complex64"), ("bsr", "complex128")):
@@ -469,7 +474,7 @@ def observe_lattice(rng, thorough):
                 var.append(("%s/%s/array" % (fmt, dt), dt, lambda vo=vo: qu.ikron(vo, lat, np.array(coos))))
             _emit(recs, base, var)
             for kind, x in (("dop", rho), ("ket", psi)):
-                base = {"ev": "ptr2d", "tid": 0, "x": _mat(x), "shape": list(shp), "dflat": dflat,
+                base = {"ev": "ptr2d", "tid": 200001 + ci, "x": _mat(x), "shape": list(shp), "dflat": dflat,
                         "coos": [[int(c_) for c_ in c] for c in coos], "kind": kind}
                 var = []
                 for dt in ("complex128", "complex64"):
@@ -523,7 +528,7 @@ def observe_hams(rng, thorough):
         setups.append(("ham_heis_2D/%dx%d" % (a, b), a * b, lambda a=a, b=b, **kw: qu.ham_heis_2D(a, b, j=(1, 2, 3), bz=2.0, cyclic=(a * b > 4), **kw), True))
 
     recs = []
-    for tid, (name, n, build, exactable) in enumerate(setups, start=1):
+    for tid, (name, n, build, exactable) in enumerate(setups, start=300001):
         D = 2 ** n
         r0 = {"ev": "hamfull", "tid": tid, "name": name, "n": n, "D": D, "exact": False, "nz": [], "exc": ""}
         try:
@@ -602,15 +607,16 @@ def observe_large(rng, ncases):
     import quimb as qu
 
     recs = []
+    cur = [0]
 
     def rnd(r, c, cplx):
         x = rng.standard_normal((r, c))
         return x + 1j * rng.standard_normal((r, c)) if cplx else x
 
-    def rec(op, exp, thunk, rdims, cdims, own=(), note=""):
-        r = {"ev": "large", "tid": 0, "op": op, "rdims": [int(d) for d in rdims], "cdims": [int(d) for d in cdims],
+    def rec(op, exp, thunk, rdims, cdims, own=(), note="", rej=False):
+        r = {"ev": "large", "tid": 400000 + cur[0], "op": op, "rdims": [int(d) for d in rdims], "cdims": [int(d) for d in cdims],
              "own": [int(o) for o in own], "shape": [0, 0], "dq": 0, "exc": "", "note": note,
-             "rej": bool((len(own) and note.startswith("bsr")) or (op in ("ptr", "ptr-ket", "adjoint") and note in ("coo", "bsr")))}
+             "rej": bool(rej or (len(own) and note.startswith("bsr")) or (op in ("ptr", "ptr-ket", "adjoint") and note in ("coo", "bsr")))}
         try:
             g = thunk()
             g = np.asarray(g.toarray() if sp.issparse(g) else g)
@@ -622,6 +628,7 @@ def observe_large(rng, ncases):
         recs.append(r)
 
     for ci in range(ncases):
+        cur[0] = ci
         n = int(rng.integers(2, 6))
         dims = [int(d) for d in rng.integers(1, 5, size=n)]
         while _prod(dims) > 240 or _prod(dims) < 2:
@@ -660,7 +667,9 @@ def observe_large(rng, ncases):
         Av = _cast(A, fmt, dt)
         if dr > 1:
             rec("ikron-overlay", Eo, lambda: qu.ikron(Av, dims, run), dims, dims, note=fmt)
-            rec("ikron-overlay", Eo[ri:rf], lambda: qu.ikron(Av, dims, run, ownership=(ri, rf), sparse=True), dims, dims, (ri, rf), fmt)
+            # (a dense operator among sparse identities makes quimb build a bsr product, which scipy cannot slice)
+            rec("ikron-overlay", Eo[ri:rf], lambda: qu.ikron(Av, dims, run, ownership=(ri, rf), sparse=True), dims, dims, (ri, rf), fmt,
+                rej=(fmt == "dense"))
         # pkron on the ordered subset
         ds = _prod(dims[s] for s in sel)
         B = rnd(ds, ds, cplx)
@@ -706,101 +715,132 @@ def observe_large(rng, ncases):
     return recs
 
 
+# --------------------------------------------------------------------------- replay
+def replay(ctx, rep):
+    """./check C15 quick --replay <file>: the recorded observation is judged again by the Trace spec
+    (for a "hamrows" record the full Hamiltonian it refers to is not in the file: only shape / dq are judged)."""
+    rec = dict(rep["record"])
+    recs = [rec]
+    if rec.get("ev") == "hamrows":
+        recs = [{"ev": "hamfull", "tid": rec.get("tid", 0), "name": rec.get("name", ""), "n": rec.get("n", 0),
+                 "D": rec["shape"][1] if rec.get("shape") else 0, "exact": False, "nz": [], "exc": ""}, rec]
+    fails = ctx.validate("C15_Trace", "Trace.cfg", recs, name="replay", ntraces=1)
+    ctx.sample({"replayed": {k: v for k, v in rec.items() if k in ("ev", "dims", "keep", "inds", "own", "var", "exc")}})
+    ctx.judge([f for f in fails if not f["clause"].startswith(("NOTE:", "HARNESS:"))])
+
+
 # --------------------------------------------------------------------------- run
 def run(ctx):
+    import concurrent.futures as cf
+
     import quimb  # noqa: fail early (exit 2) if quimb cannot be imported
 
     quick = ctx.tier == "quick"
     thorough = not quick
-    rng = np.random.default_rng(1500 + ctx.seed)
-
-    # 1. TLC: the I-model of kron(ownership=) implies "exactly the requested rows", for every case
-    res = ctx.model_check("MC_C15", "MC_quick.cfg" if quick else "MC_thorough.cfg", name="kron-ownership",
-                          require_actions=("Match", "Slice", "Product", "Correct", "Emit"), workers=1)
-    kcases = T.parse_printed_json(res.output)
-    ninit = res.coverage.get("Init", (0, 0))[0]
-    if not kcases or len(kcases) != ninit:
-        raise MachineryError("kron model printed %d cases for %d initial states" % (len(kcases), ninit))
-    # self-test of the model: without the over-slice correction TLC must reject it
-    r = T.run_tlc("MC_C15", "MC_nocorrect.cfg", ctx.spec_dir, workers=4, allow_violation=True, scratch=ctx.scratch)
-    if r.violated != "OwnRowsExact":
-        raise MachineryError("model self-test: kron without the over-slice correction was not rejected by TLC")
-    ctx.extra["model_selftest_kron"] = "dropping the over-slice correction violates OwnRowsExact (%d states)" % r.distinct
-
-    # 2. TLC: sparse partial trace. The code variant holds where no subsystem has dimension 1 and something is kept,
-    #    is rejected on the whole scope (the defect, at design level), and the proposed repair holds on the whole scope.
     tier = "quick" if quick else "thorough"
-    ctx.model_check("MC_C15Ptr", "MC_ptr_%s.cfg" % tier, name="sparse-ptr(code, dims>1)",
-                    require_actions=("Enter", "Compress", "KeepOne", "LoseOne"))
-    ctx.model_check("MC_C15Ptr", "MC_ptr_repaired_%s.cfg" % tier, name="sparse-ptr(repaired, all dims)",
-                    require_actions=("Enter", "Compress", "KeepOne", "LoseOne"))
-    r = T.run_tlc("MC_C15Ptr", "MC_ptr_defect.cfg", ctx.spec_dir, workers=4, allow_violation=True, scratch=ctx.scratch)
-    ctx.extra["model_ptr_code_on_whole_scope"] = (
-        "TLC rejects the pinned _dim_compressor/_partial_trace_simple on dims with a 1 / empty keep: %s violated" % r.violated
-        if r.violated else "TLC accepts the pinned sparse partial trace on the whole scope (the defect is gone)")
+    rng = np.random.default_rng(1500 + ctx.seed)
+    nw = 16 if thorough else 8
+    pool = cf.ThreadPoolExecutor(max_workers=4)  # TLC runs are subprocesses: overlap them with the python driving
+    try:
+        # 1. TLC: the laws of the statement on the reference itself + ikron's generator against the reference
+        laws = ("LawKron", "LawAdjoint", "LawAdjointOrdered", "LawKetProjector", "LawPTraceProduct", "LawPermuteKron",
+                "LawPermuteEmbed", "LawPKron", "LawPartialTranspose", "LawEmbed", "Emit")
+        f_laws = pool.submit(ctx.model_check, "MC_C15Laws", "MC_laws_%s.cfg" % tier, name="laws-on-reference",
+                             require_actions=laws, workers=nw)
+        # 2. TLC: sparse partial trace. The code variant holds where no subsystem has dimension 1 and something is
+        #    kept, is rejected on the whole scope (the defect, at design level), and the proposed repair holds there.
+        f_ptr = [pool.submit(ctx.model_check, "MC_C15Ptr", "MC_ptr_%s.cfg" % tier, name="sparse-ptr(code, dims>1)",
+                             require_actions=("Enter", "Compress", "KeepOne", "LoseOne"), workers=4),
+                 pool.submit(ctx.model_check, "MC_C15Ptr", "MC_ptr_repaired_%s.cfg" % tier, name="sparse-ptr(repaired, all dims)",
+                             require_actions=("Enter", "Compress", "KeepOne", "LoseOne"), workers=4)]
 
-    # 3. TLC: the laws of the statement on the reference itself + ikron's generator against the reference
-    laws = ("LawKron", "LawAdjoint", "LawAdjointOrdered", "LawKetProjector", "LawPTraceProduct", "LawPermuteKron",
-            "LawPermuteEmbed", "LawPKron", "LawPartialTranspose", "LawEmbed", "Emit")
-    res = ctx.model_check("MC_C15Laws", "MC_laws_%s.cfg" % tier, name="laws-on-reference", require_actions=laws)
-    lcases = T.parse_printed_json(res.output)
-    ninit = res.coverage.get("Init", (0, 0))[0]
-    if not lcases or len(lcases) != ninit:
-        raise MachineryError("laws model printed %d cases for %d initial states" % (len(lcases), ninit))
-    lcases.sort(key=lambda c: (len(c["dims"]), c["dims"], len(c["sel"]), c["sel"], c["seed"]))
+        def selftests():
+            r1 = T.run_tlc("MC_C15", "MC_nocorrect.cfg", ctx.spec_dir, workers=2, allow_violation=True, scratch=ctx.scratch)
+            r2 = T.run_tlc("MC_C15Ptr", "MC_ptr_defect.cfg", ctx.spec_dir, workers=2, allow_violation=True, scratch=ctx.scratch)
+            return r1, r2
 
-    # 4. S->C: replay the TLC cases into quimb
-    if quick:
-        # every dims list and every range is replayed through kron; ikron on every third case
-        krecs = replay_kron_cases(rng, kcases, False, ikron_every=3)
-    else:
-        krecs = replay_kron_cases(rng, kcases, True, ikron_every=1)
-    ctx.sample({"kron-ownership": {k: krecs[len(krecs) // 2][k] for k in ("ops", "own", "got", "var", "exc")}})
-    fails = ctx.validate("C15_Trace", "Trace.cfg", krecs, name="kron-ownership", ntraces=len(kcases), chunk=4000)
+        f_self = pool.submit(selftests)
 
-    srecs = []
-    seen = set()
-    for ci, c in enumerate(lcases):
-        dims, sel = [int(d) for d in c["dims"]], [int(s) - 1 for s in c["sel"]]
-        if c["seed"] != 0:
-            continue
-        seen.add((tuple(dims), tuple(sel)))
-        replay_sel_case(rng, srecs, dims, sel, ci, "tlc", thorough)
-    nl = len(seen)
-    # C->S: the harness' own exhaustive enumeration of a larger small scope
-    extra = []
-    lim = 12 if quick else 27
-    for n in (1, 2, 3):
-        for dims in itertools.product((1, 2, 3), repeat=n):
-            if _prod(dims) <= lim:
-                extra.append(list(dims))
-    if thorough:
-        extra += [[2, 2, 2, 2], [2, 1, 3, 2], [1, 2, 2, 3], [4, 3], [2, 4], [3, 2, 1, 2], [2, 2, 3, 1], [5, 2]]
-    ci = len(lcases)
-    ne = 0
-    for dims in extra:
-        for sel in all_selections(len(dims)):
-            if (tuple(dims), tuple(sel)) in seen:
+        # 3. TLC: the I-model of kron(ownership=) implies "exactly the requested rows", for every case
+        res = ctx.model_check("MC_C15", "MC_%s.cfg" % tier, name="kron-ownership",
+                              require_actions=("Match", "Slice", "Product", "Correct", "Emit"), workers=1)
+        kcases = T.parse_printed_json(res.output)
+        # one behaviour per case: match, slice, product, correct, done, emitted = 6 states
+        if not kcases or len(kcases) * 6 != res.distinct or len({(tuple(c["dims"]), c["ri"], c["rf"]) for c in kcases}) != len(kcases):
+            raise MachineryError("kron model printed %d cases for %d states" % (len(kcases), res.distinct))
+        kcases.sort(key=lambda c: (len(c["dims"]), c["dims"], c["ri"], c["rf"]))
+
+        # 4. S->C: every TLC case (dims, ri, rf) through qu.kron(ownership=); qu.ikron(ownership=) on a share of them
+        krecs = replay_kron_cases(rng, kcases, thorough, ikron_every=(4 if quick else 1))
+        ctx.sample({"kron-ownership": {k: krecs[len(krecs) // 2][k] for k in ("ops", "own", "got", "var", "exc")}})
+        f_kv = pool.submit(ctx.validate, "C15_Trace", "Trace.cfg", krecs, name="kron-ownership", ntraces=len(kcases), chunk=12000)
+
+        # (python only, while TLC judges the kron records) coordinates, Hamiltonian builders, larger random scope
+        orecs = observe_dim_map(rng, thorough) + observe_lattice(rng, thorough)
+        hrecs, nham = observe_hams(rng, thorough)
+        lrecs = observe_large(rng, 60 if quick else 600)
+
+        # 5. S->C: the cases of the laws model through ikron / pkron / permute / ptr / partial_transpose
+        lres = f_laws.result()
+        lcases = T.parse_printed_json(lres.output)
+        # one behaviour per case: 10 laws + the emitting step = 12 states
+        if not lcases or len(lcases) * 12 != lres.distinct or len({(tuple(c["dims"]), tuple(c["sel"]), c["seed"]) for c in lcases}) != len(lcases):
+            raise MachineryError("laws model printed %d cases for %d states" % (len(lcases), lres.distinct))
+        lcases.sort(key=lambda c: (len(c["dims"]), c["dims"], len(c["sel"]), c["sel"], c["seed"]))
+        srecs = []
+        seen = set()
+        for ci, c in enumerate(lcases):
+            dims, sel = [int(d) for d in c["dims"]], [int(s) - 1 for s in c["sel"]]
+            if c["seed"] != 0:
                 continue
-            ci += 1
-            if quick and (ci + ctx.seed) % 2:
-                continue  # quick tier: every second case of the extra scope (which ones depends on the seed)
-            ne += 1
-            replay_sel_case(rng, srecs, dims, sel, ci, "enum", thorough)
+            seen.add((tuple(dims), tuple(sel)))
+            replay_sel_case(rng, srecs, dims, sel, ci, "tlc", thorough)
+        nl = len(seen)
+        # C->S: the harness' own exhaustive enumeration of a larger small scope
+        extra = []
+        lim = 12 if quick else 27
+        for n in (1, 2, 3):
+            for dims in itertools.product((1, 2, 3), repeat=n):
+                if _prod(dims) <= lim:
+                    extra.append(list(dims))
+        if thorough:
+            extra += [[2, 2, 2, 2], [2, 1, 3, 2], [1, 2, 2, 3], [4, 3], [2, 4], [3, 2, 1, 2], [2, 2, 3, 1], [5, 2]]
+        ci = len(lcases)
+        ne = 0
+        for dims in extra:
+            for sel in all_selections(len(dims)):
+                if (tuple(dims), tuple(sel)) in seen:
+                    continue
+                ci += 1
+                if quick and (ci + ctx.seed) % 3:
+                    continue  # quick tier: every third case of the extra scope (which ones depends on the seed)
+                ne += 1
+                replay_sel_case(rng, srecs, dims, sel, ci, "enum", thorough)
+
+        # the model runs that were overlapped: their verdicts (a violated invariant raises TLCError -> exit 2)
+        for f in f_ptr:
+            f.result()
+        r1, r2 = f_self.result()
+        if r1.violated != "OwnRowsExact":
+            raise MachineryError("model self-test: kron without the over-slice correction was not rejected by TLC")
+        ctx.extra["model_selftest_kron"] = "dropping the over-slice correction violates OwnRowsExact (%d states)" % r1.distinct
+        ctx.extra["model_ptr_code_on_whole_scope"] = (
+            "TLC rejects the pinned _dim_compressor/_partial_trace_simple on dims with a 1 / empty keep: %s violated" % r2.violated
+            if r2.violated else "TLC accepts the pinned sparse partial trace on the whole scope (the defect is gone)")
+        fails = f_kv.result()
+    finally:
+        pool.shutdown(wait=True)
+    ctx.mc.sort(key=lambda m: m["name"])
+
     for ev in ("ikron", "pkron", "permute", "ptr", "adjoint", "ptrans"):
         for r_ in srecs:
             if r_["ev"] == ev and r_.get("exc") == "":
                 ctx.sample({ev: {k: v for k, v in r_.items() if k not in ("tid", "src")}}, cap=8)
                 break
-    fails += ctx.validate("C15_Trace", "Trace.cfg", srecs, name="embed-permute-ptr", ntraces=nl + ne, chunk=4000)
-
-    # 5. coordinates, Hamiltonian builders, larger random scope
-    drecs = observe_dim_map(rng, thorough) + observe_lattice(rng, thorough)
-    fails += ctx.validate("C15_Trace", "Trace.cfg", drecs, name="coordinates", ntraces=1, chunk=6000)
-    hrecs, nham = observe_hams(rng, thorough)
-    fails += ctx.validate("C15_Trace", "Trace.cfg", hrecs, name="ham-ownership", ntraces=nham, chunk=6000)
-    lrecs = observe_large(rng, 60 if quick else 600)
-    fails += ctx.validate("C15_Trace", "Trace.cfg", lrecs, name="large-scope", ntraces=1)
+    nsel = len({r_["tid"] for r_ in srecs})
+    fails += ctx.validate("C15_Trace", "Trace.cfg", srecs + orecs + hrecs + lrecs, name="embed-permute-ptr-coords-ham-large",
+                          ntraces=nsel + nham + 2, chunk=12000)
+    drecs = orecs
 
     # 6. verdicts
     harness = [f for f in fails if f["clause"].startswith("HARNESS:")]
